@@ -1,8 +1,7 @@
 #!/usr/bin/env python3
 """Run every claimed quick check against each seeded change under /verif/seeded/<id>/patch.diff.
 
-For each change: `git -C /repo apply patch.diff`, run the checks, `git -C /repo checkout -- .` (always, in a finally).
-Nothing is committed to /repo.  Writes /verif/seeded/RESULTS.json and prints a table.
+Each change is applied to a scratch worktree under /tmp (SA_REPO points the checks at it); /repo is never touched.  Writes /verif/seeded/RESULTS.json and prints a table.
 Usage: python3-vt tools/eval_seeded.py [id ...]
 """
 import json
@@ -19,41 +18,51 @@ def sh(cmd, **kw):
 
 
 def main(argv):
+    """Each change is applied to a scratch worktree of /repo's HEAD under /tmp (never to /repo); the worktree is removed."""
+    import os
+    from concurrent.futures import ThreadPoolExecutor
     props = [c["property_id"] for c in json.loads((ROOT / "MANIFEST.json").read_text())["checks"]]
-    dirty = sh("git -C /repo status --porcelain --untracked-files=no").stdout.strip()
-    if dirty:
-        print("refusing: /repo has uncommitted changes:\n" + dirty)
+    wt = "/tmp/seed_eval_wt"
+    sh(f"git -C /repo worktree remove --force {wt}; rm -rf {wt}")
+    if sh(f"git -C /repo worktree add -q --detach {wt} HEAD").returncode != 0:
+        print("cannot create scratch worktree")
         return 2
     ids = argv or sorted(p.name for p in SEEDED.iterdir() if (p / "patch.diff").exists())
     results = {}
     if (SEEDED / "RESULTS.json").exists():
         results = json.loads((SEEDED / "RESULTS.json").read_text())
-    for sid in ids:
-        d = SEEDED / sid
-        meta = json.loads((d / "meta.json").read_text()) if (d / "meta.json").exists() else {}
-        r = sh(f"git -C /repo apply {d / 'patch.diff'}")
-        if r.returncode != 0:
-            print(f"{sid}: patch does not apply: {r.stderr.strip()[:200]}")
-            results[sid] = {"applies": False}
-            continue
-        try:
+    try:
+        for sid in ids:
+            d = SEEDED / sid
+            meta = json.loads((d / "meta.json").read_text()) if (d / "meta.json").exists() else {}
+            sh(f"git -C {wt} reset -q --hard; git -C {wt} clean -qfd")
+            r = sh(f"git -C {wt} apply {d / 'patch.diff'}")
+            if r.returncode != 0:
+                r = sh(f"git -C {wt} apply -3 {d / 'patch.diff'} && git -C {wt} reset -q")
+            if r.returncode != 0:
+                print(f"{sid}: patch does not apply: {r.stderr.strip()[:200]}")
+                results[sid] = {"applies": False}
+                continue
             hits = {}
             errors = {}
-            for p in props:
-                out = sh(f"python3-vt sa/check.py {p} --tier quick", cwd=ROOT, env={**__import__("os").environ, "SA_EVIDENCE_DIR": "/tmp/seed_eval_evidence"})
-                if out.returncode == 1:
-                    rules = sorted({l.split("[")[1].split("]")[0] for l in out.stdout.splitlines() if l.startswith("sigpyproc/") and "[" in l})
-                    hits[p] = rules
-                elif out.returncode != 0:
-                    errors[p] = (out.stdout.strip().splitlines() or ["?"])[-1][:200]
+
+            def one(p):
+                return p, sh(f"python3-vt sa/check.py {p} --tier quick", cwd=ROOT,
+                             env={**os.environ, "SA_REPO": wt, "SA_EVIDENCE_DIR": f"/tmp/seed_eval_evidence/{p}"})
+
+            with ThreadPoolExecutor(max_workers=16) as ex:
+                for p, out in ex.map(one, props):
+                    if out.returncode == 1:
+                        hits[p] = sorted({l.split("[")[1].split("]")[0] for l in out.stdout.splitlines() if l.startswith("sigpyproc/") and "[" in l})
+                    elif out.returncode != 0:
+                        errors[p] = (out.stdout.strip().splitlines() or ["?"])[-1][:200]
             results[sid] = {"applies": True, "property": meta.get("property"), "reported_by": hits, "analysis_errors": errors,
                             "caught": bool(hits), "caught_by_own_property": meta.get("property") in hits}
-        finally:
-            sh("git -C /repo checkout -- .")
-        own = meta.get("property")
-        print(f"{sid}: property {own}: " + (f"CAUGHT by {hits}" if hits else "MISSED") + (f"  errors: {errors}" if errors else ""))
+            own = meta.get("property")
+            print(f"{sid}: property {own}: " + (f"CAUGHT by {hits}" if hits else "MISSED") + (f"  errors: {errors}" if errors else ""), flush=True)
+    finally:
+        sh(f"git -C /repo worktree remove --force {wt}; rm -rf {wt} /tmp/seed_eval_evidence; git -C /repo worktree prune")
     (SEEDED / "RESULTS.json").write_text(json.dumps(results, indent=1, sort_keys=True) + "\n")
-    sh("rm -rf /tmp/seed_eval_evidence")
     return 0
 
 
